@@ -22,7 +22,8 @@ NumStrs == <<Str(<<51>>), Str(<<45, 50>>), Str(<<50, 46, 53>>), Str(<<48>>), Str
              Str(<<48, 49, 48>>), Str(<<48, 49, 50>>), Str(<<48, 48, 55>>), Str(<<45, 48, 49, 49>>)>>
 \* numbers as the engine itself prints them beyond 10^6 and below 10^-4: 1e+06  2.5e-05  1.5e3  1E2  -4e+00
 ExpStrs == <<Str(<<49, 101, 43, 48, 54>>), Str(<<50, 46, 53, 101, 45, 48, 53>>), Str(<<49, 46, 53, 101, 51>>), Str(<<49, 69, 50>>), Str(<<45, 52, 101, 43, 48, 48>>)>>
-BadStrs == <<Str(<<97, 98, 99>>), Str(<<>>), Str(<<51, 120>>), Str(<<32>>)>>
+\* (also texts that BEGIN like a number and go on with something no number holds: "3,5", "12%", "7 up")
+BadStrs == <<Str(<<97, 98, 99>>), Str(<<>>), Str(<<51, 120>>), Str(<<32>>), Str(<<51, 44, 53>>), Str(<<49, 50, 37>>), Str(<<55, 32, 117, 112>>)>>
 \* whole numbers beyond 32 bits that are exactly 64-bit floats (up to 2^53), as integers and as strings of digits: 2^53,
 \* 2^53 - 1, 2^52, 2^52 + 1, 2^40, 10^12 + 1
 BigDigits == << <<57, 48, 48, 55, 49, 57, 57, 50, 53, 52, 55, 52, 48, 57, 57, 50>>, <<57, 48, 48, 55, 49, 57, 57, 50, 53, 52, 55, 52, 48, 57, 57, 49>>,
